@@ -2,7 +2,10 @@ package sim
 
 import (
 	"fmt"
+	"runtime/debug"
 	"strings"
+
+	"github.com/onheap/eval"
 )
 
 // C10 — Constant folding respects operator purity and defers failures to run time.
@@ -16,7 +19,7 @@ type propC10 struct{}
 func init() {
 	Register(propC10{})
 	meta["C10"] = propMeta{
-		Rule: "A case is one world: a constant-heavy program mixing literals, constants, variables, built-ins, stateless-declared and undeclared user operators (a clock reader and an always-failing operator among them), failing constant sub-expressions in reached and unreached positions; compiled under 4 option subsets (always including folding-only and none) with an optional injected failure of a stateless operator during Compile; then 1-6 evaluations with the logical clock advanced between them. Checked per phase: only stateless-declared operators run during Compile; Compile succeeds whenever the unoptimised compile does; per evaluation the undeclared-operator calls equal those of the L2R reference on the Dump tree; the value equals the reference value at that evaluation's clock; errors occur iff the reference on the Dump tree fails; with folding as the only rewrite, every constant Dump shows in place of a non-literal sub-tree is one the statement allows. evaluations = calls into the library. non-trivial = distinct worlds in which folding changed the program and at least one user operator was called at evaluation time.",
+		Rule: "A case is one world: a constant-heavy program mixing literals, constants, variables, built-ins, stateless-declared and undeclared user operators (a clock reader and an always-failing operator among them), failing constant sub-expressions in reached and unreached positions; compiled under 4 option subsets (always including folding-only and none) with an optional injected failure of a stateless operator during Compile; then 1-6 evaluations with the logical clock advanced between them. Checked per phase: only stateless-declared operators run during Compile; Compile succeeds whenever the unoptimised compile does; per evaluation the undeclared-operator calls equal those of the L2R reference on the Dump tree; the value equals the reference value at that evaluation's clock; errors occur iff the reference on the Dump tree fails; with folding as the only rewrite, every constant Dump shows in place of a non-literal sub-tree is one the statement allows; in worlds without constants the one-shot eval.Eval(text, vals) makes the same user-operator calls and returns the same value or error as Compile with the same names registered followed by Eval (the value of a variable is no constant). evaluations = calls into the library. non-trivial = distinct worlds in which folding changed the program and at least one user operator was called at evaluation time.",
 		Assumptions: []string{
 			"'folded only when': a sub-tree may be replaced by a constant iff it mentions no variable and no undeclared operator and evaluates without error to that constant, or it is an and/or one of whose operands folds to its absorbing value; folding less is never an alarm",
 			"built-in operators are not observable from outside and are not restricted during Compile",
@@ -393,6 +396,72 @@ func (propC10) Run(w *World, st *Stats) *Violation {
 			st.Probe("stateless_op_failed_during_compile")
 		}
 	}
+	if v := c10OneShot(w, st, ops); v != nil {
+		return v
+	}
 	st.Sample(w.Canon())
+	return nil
+}
+
+// c10OneShot: the one-shot eval.Eval(text, vals) compiles with the default
+// options and evaluates once. What it may fold is what the two-step form
+// (Compile with the same names registered, then Eval of the same values) may
+// fold: a variable's value is no constant, so the same user-operator calls
+// happen and the same value or error comes back.
+func c10OneShot(w *World, st *Stats, ops map[string]*OpSpec) *Violation {
+	if len(w.Cfg.Consts) > 0 || len(w.Calls) < 2 {
+		return nil // constants cannot be passed to the one-shot form without options
+	}
+	p := &w.Calls[1]
+	for _, v := range w.Cfg.Vars {
+		if _, ok := p.Bind[v.Name]; !ok {
+			return nil
+		}
+	}
+	src := w.Prog.Src()
+	run := func(oneShot bool) (out Outcome) {
+		env := NewEnv(ops, p)
+		env.Phase = "eval"
+		out.Env = env
+		host := &OpHost{Specs: ops, CompileEnv: env}
+		vals := map[string]interface{}{}
+		for n, v := range p.Bind {
+			vals[n] = v.Go()
+		}
+		for _, sp := range w.Cfg.Ops {
+			vals[sp.Name] = host.Operator(sp.Name)
+		}
+		defer func() {
+			if r := recover(); r != nil {
+				out.Panic = r
+				out.Stack = string(debug.Stack())
+			}
+		}()
+		if oneShot {
+			out.Val, out.Err = eval.Eval(src, vals)
+			return
+		}
+		cc := eval.NewConfig(eval.RegVarAndOp(vals))
+		e, err := eval.Compile(cc, src)
+		if err != nil {
+			out.Err = err
+			return
+		}
+		out.Val, out.Err = e.Eval(eval.NewCtxFromVars(cc, vals))
+		return
+	}
+	two := run(false)
+	one := run(true)
+	st.Evals += 2
+	if two.Panic != nil || one.Panic != nil {
+		return viol(w, "panic", "one-shot %v / two-step %v panicked\n%s%s", one.Panic, two.Panic, one.Stack, two.Stack)
+	}
+	if (one.Err == nil) != (two.Err == nil) || (one.Err == nil && !ValEq(one.Val, two.Val)) {
+		return viol(w, "oneshot-differs", "eval.Eval(text, vals) returns %s err=%v; Compile with the same names registered and Eval of the same values returns %s err=%v\nsource: %s", ValStr(one.Val), one.Err, ValStr(two.Val), two.Err, src)
+	}
+	if d := logDiff(&w.Cfg, opCalls(two.Env.Log, ops, false), opCalls(one.Env.Log, ops, false)); d != "" {
+		return viol(w, "oneshot-differs", "the user-operator calls of eval.Eval(text, vals) differ from those of Compile + Eval with the same names and values (a variable's value is no constant)\n%s\nsource: %s", d, src)
+	}
+	st.Probe("oneshot_equals_two_step")
 	return nil
 }
